@@ -64,7 +64,8 @@ def replay(body):
     a = body['args']
     if body.get('call') == 'get_buf_count':
         r = blc.get_buf_count(a['crop_size'], a['n_peaks'], np.dtype(a['dtype']), a['limit'])
-        ok = 1 <= r <= a['n_peaks']
+        fs = (2 * a['crop_size']) ** 2 * np.dtype(a['dtype']).itemsize
+        ok = (1 <= r <= a['n_peaks']) and not (fs <= a['limit'] and r * fs > a['limit'])
         print(json.dumps({'replayed': a, 'result': int(r)}))
         if not ok:
             print('VIOLATION property=C08 replay=(given)')
